@@ -403,6 +403,11 @@ SUBS = {'so_tokenizer_orders': so_tokenizer_orders, 'shakespeare_tok': shakespea
 TIMEOUTS = {k: 1500 for k in SUBS}
 
 
+# sub-spaces re-executed under other interpreter configurations (mc.core.CONFIGS): {configuration: {sub-space: stride}}
+# quick tier: every stride-th planned case, thorough tier: all planned cases
+CONFIG_PASSES = {'x64': {'cifar': 8, 'row_independence': 2, 'lm_crosscheck': 25}}
+
+
 def plan(ctx):
   th = ctx.tier == 'thorough'
   ctx.rule = ('Shakespeare: all lists of <=%d snippets of length <=%d over bytes {a,d,9,\\\\r,0xFF} x sequence lengths 2..6; '
